@@ -31,7 +31,7 @@ U(up, segs, md, dot) == [up |-> up, segs |-> segs, md |-> md, dot |-> dot]
 RECURSIVE Common(_, _)
 Common(a, b) == IF a = <<>> \/ b = <<>> \/ Head(a) # Head(b) THEN 0 ELSE 1 + Common(Tail(a), Tail(b))
 Dir(k) == SubSeq(k, 1, Len(k) - 1)
-Rel(k, d) == LET c == Common(k, d) IN U(Len(d) - c, SubSeq(k, c + 1, Len(k)), FALSE, FALSE)
+Rel(k, d) == LET c == Common(Dir(k), d) IN U(Len(d) - c, SubSeq(k, c + 1, Len(k)), FALSE, FALSE)
 
 L(url, kind, text) == [url |-> url, kind |-> kind, text |-> text, ext |-> FALSE]
 X(u, text) == [url |-> U(0, <<u>>, FALSE, FALSE), kind |-> "inline", text |-> text, ext |-> TRUE]
